@@ -17,7 +17,7 @@ MAIN_HISTORIES = {'quick': 3, 'thorough': 5}
 def gen_case(rng):
     mg, xg, ml = rng.choice([(1, 4, 4), (2, 5, 3), (3, 6, 3), (2, 4, 4)])
     spec = rulesets.gen_spec(rng, with_m=False, min_groups=mg, max_groups=xg, max_len=ml,
-                             pool=rng.choice(['dyadic', 'dyadic3', 'equal', 'decimal', 'thirds', 'counts', 'counts', 'random', 'tiny']))
+                             pool=rng.choice(['dyadic', 'dyadic3', 'equal', 'decimal', 'thirds', 'counts', 'counts', 'random', 'tiny', 'nearties']))
     flags = {'skip_brute': rng.random() < 0.2, 'all_lower': rng.random() < 0.3, 'folder': 'Grammar'}
     return {'spec': spec, 'flags': flags, 'hseed': rng.getrandbits(32)}
 
